@@ -37,7 +37,7 @@ EventOK(e) ==
          /\ SetsOf(e.out) = SetsOf(CondCnf(e.cnf, e.lit))
          /\ e.nv = MaxVar(e.out) + 1
     [] e.ev = "cnf_wmc" ->
-         /\ e.val = Comps(WMC(e.sr, e.p, EvalCnf(e.cnf), e.w, e.wexp, e.nv), e.nv * e.wexp)
+         /\ e.val = Comps(WMC(e.sr, e.p, EvalCnf(e.cnf), e.w, WX(e.wexp, e.nv), e.nv), e.nv * e.wexp)
          /\ (IF "den" \in DOMAIN e THEN e.den = 1 ELSE TRUE)
     [] e.ev = "pm_new" -> e.a = [i \in 1 .. Len(e.a_in) |-> e.a_in[i]] /\ e.b = [i \in 1 .. Len(e.b_in) |-> e.b_in[i]]
     [] e.ev = "pm_set" -> e.a = PmSet(pmA, e.v, IF e.b THEN 1 ELSE 0)
